@@ -36,8 +36,10 @@ PROP = dict(
              "per-ledger machines), C04_account_meta (current account metadata = fold of the log; unconditional), and, each with the "
              "full statement refuted by a vm_compute witness and proved under an executable exclusion of the defective class: "
              "C04_volumes / C04_balance / C04_double_entry (no self-transfer on a not-yet-existing account), C04_effective "
-             "(+ timestamps in UTC, + no move back-dated before the first move of its account/asset), C04_tx (timestamps in UTC). "
-             "Point-in-time metadata and the per-transaction volume aggregates are refuted by witnesses (known findings) and have no "
+             "(+ timestamps in UTC, + no move back-dated before the first move of its account/asset), C04_tx (timestamps in UTC), "
+             "C04_aggregate / C04_aggregate_balanced (GetAggregatedBalances = replay per asset and is zero), C04_account_meta_pit and "
+             "C04_tx_pit (as of a date; under monotone log dates and the exclusions of the < / <= and foreign-date findings, at most "
+             "one revert per transaction). The per-transaction volume aggregates are refuted by witnesses (known findings) and have no "
              "positive theorem. The model is tied to the working tree on every run by re-parsing the schema text and executing it "
              "(through the real Store.InsertLogs and the real single-row Store reads) on generated histories with a Go stand-in for "
              "PostgreSQL, and comparing all tables and reads with the model inside coqc; an independent Go fold of the log is the oracle.",
